@@ -247,12 +247,13 @@ pub fn judge(h: &History, recs: &[StepRec]) -> Result<u32, Failure> {
                     Err((fp, d)) => return Err(fail(fp, d)),
                 }
             }
-            // timing: first request = tx_done + delay + offset (signed); RX2 request = RX1 request + 1000
+            // timing: first request = tx_done + delay + offset (signed); RX2 request = RX1 request + 1000, on the
+            // board's 32-bit millisecond clock (sums are taken modulo 2^32)
             let want_t1 = (tx_ms as i64 + delay as i64 + h.board.nb_offset_ms as i64) as u32;
             if tos.first() != Some(&want_t1) {
                 return Err(fail("timing/nb-rx1".into(), format!("first TimeoutRequest {:?}, expected tx_done {tx_ms} + delay {delay} + offset {} = {want_t1}", tos.first(), h.board.nb_offset_ms)));
             }
-            if tos.len() >= 3 && tos[2] != want_t1 + 1000 {
+            if tos.len() >= 3 && tos[2] != want_t1.wrapping_add(1000) {
                 return Err(fail("timing/nb-rx2".into(), format!("RX2 TimeoutRequest {}, expected RX1 request {want_t1} + 1000", tos[2])));
             }
         } else {
@@ -426,7 +427,7 @@ pub fn run(ctx: &mut Ctx) {
                         steps.push(Step::Join(RxPlan::default()));
                         let h = History { cfg: DevCfg { region: *region, join_bias: if reg.fixed() && rng.bool() { Some((1 + rng.below(8) as u8, 1 + rng.below(3) as usize)) } else { None }, front: *front, board: (14, 0) },
                             activation: if *otaa { Activation::Otaa } else { Activation::Abp { fcnt_up: 0, fcnt_down: None } },
-                            board: Board { tx_ms: [0, 3, 1500][(off as usize) % 3], lead_ms: timing, buffer_ms: timing / 2, nb_offset_ms: [0i32, -10, 25, -200][(delay as usize) % 4], nb_duration_ms: [100 + timing, 100 + timing, 999, 1000, 1001, 1500, 2500][(off as usize * 16 + delay as usize) % 7], nb_async_tx: rng.bool(), snr: 0 },
+                            board: Board { tx_ms: if *front == FrontKind::Nb { [0u32, 3, 1500, 0x7FFF_FE00, 0xFFFF_FC18, 0xFFFF_FFFF][(off as usize + delay as usize) % 6] } else { [0, 3, 1500][(off as usize) % 3] }, lead_ms: timing, buffer_ms: timing / 2, nb_offset_ms: [0i32, -10, 25, -200][(delay as usize) % 4], nb_duration_ms: [100 + timing, 100 + timing, 999, 1000, 1001, 1500, 2500][(off as usize * 16 + delay as usize) % 7], nb_async_tx: rng.bool(), snr: 0 },
                             rng_script: vec![rng.next_u32(), rng.next_u32()], rng_seed: rng.next_u64(), steps };
                         // the hook enumeration on the state before the final re-join: run on a prefix
                         let mut hp = h.clone();
@@ -453,6 +454,10 @@ pub fn run(ctx: &mut Ctx) {
             h.board.nb_offset_ms = o * 15;
             h.board.tx_ms = t * 7;
             h.board.nb_duration_ms = [100, 150, 999, 1000, 1001, 3000][(h.rng_seed % 6) as usize];
+            if h.cfg.front == FrontKind::Nb {
+                // on the nb front-end the radio reports a timestamp: a clock that is about to wrap
+                h.board.tx_ms = [t * 7, t * 7, 0x7FFF_FB00 + t * 300, 0xFFFF_F800 + t * 400, 0xFFFF_FFFF][((h.rng_seed >> 8) % 5) as usize];
+            }
             h
         });
         let f = run_proptest(strat, cases / nthreads + 1, seed ^ 0xC10B ^ ((ti as u64) << 36), st, |h, st| run_one(h, st, "random-history", st.evaluations % 7 == 0));
